@@ -258,6 +258,63 @@ CHECKS.update({
     ),
 })
 
+CHECKS.update({
+    "C16": (
+        "history monitor: reused instance vs fresh instance after every call, "
+        "over all ordered pairs/triples of representative inputs",
+        "Parsers (5 configurations): all ordered pairs and triples over 14 "
+        "representative texts (exhaustive for that set) plus random histories "
+        "up to 12 texts - result snapshot, errors attribute, exception type, "
+        "position attributes and message must equal a fresh instance's; "
+        "encoders (4 classes x 2 option sets) over pairs/triples of modules "
+        "incl. refusals and PDS3 conversions; decoders over random decode_* "
+        "histories; the long-lived instances in pvl_validate.dialects and "
+        "pvl_translate.formats.",
+        "The representative input set is fixed; histories beyond triples are "
+        "sampled.",
+        "DESIGN.md section 4 C16",
+    ),
+    "C18": (
+        "recording substitute classes + recursive type walk of the result + "
+        "map-back comparison with the plain load",
+        "Generated documents x 5 (parser, decoder) pairings x random subsets "
+        "of {real_cls (recording class or Decimal), quantity_cls, module, "
+        "group, object classes}: every real is the substitute and saw the "
+        "literal's text, every quantity and container is the substitute at "
+        "every depth, integers stay int, and mapping the substitutes back "
+        "equals the plain load.",
+        "Numbers that compare equal collapse inside Python sets; such "
+        "documents are compared by value there. PDSLabelDecoder has no "
+        "real_cls parameter (not constructible).",
+        "DESIGN.md section 4 C18",
+    ),
+    "C19": (
+        "differential monitor pvl.new vs pvl on the same texts (loads, "
+        "items at every level, errors, five dumps)",
+        "Well-formed generated documents (free spelling and layout) and every "
+        "well-formed tests/data label: success iff success, New container "
+        "classes with identical (name, value) sequences at every level, "
+        "identical errors, identical text from PVL/ODL/PDS3/ISIS encoders "
+        "(built with the New classes) and from the no-argument dumps.",
+        "multidict 6.8.0 as installed; ill-formed texts (incl. missing "
+        "values) are outside the property's quantifier.",
+        "DESIGN.md section 4 C19",
+    ),
+    "C20": (
+        "differential monitor: tool stdout / failure vs the library "
+        "expression evaluated with the harness's own dialect table",
+        "Generated files (well-formed in 5 spellings, missing values, token "
+        "damage, trailing binary, non-ASCII) and all tests/data files through "
+        "pvl_translate -of PDS3/ODL/ISIS/PVL/JSON (stdout, stdin; outfile in "
+        "a real process) and pvl_validate (single file report, many-file "
+        "table): byte-identical output, failure iff the library fails, each "
+        "(row, loads/encodes) cell equal to the harness's verdict, report "
+        "layout, completion; a sample runs the entry points as subprocesses.",
+        "In-process calls with captured stdout for speed.",
+        "DESIGN.md section 4 C20",
+    ),
+})
+
 NOT_YET = "check not built yet in this round (work in progress; see DESIGN.md section 8 build order)"
 
 ALL = [f"C{n:02d}" for n in range(1, 21)]
